@@ -28,7 +28,7 @@ def s_pair(draw):
     return {
         "lat1": lat1, "lon1": lon1, "lat2": lat2, "lon2": lon2,
         "par1": draw(st.integers(0, 1)), "same_parity": draw(gen.uint(0, 19)) == 0,
-        "tc1": draw(tcs), "tc2": draw(tcs), "t1": t1, "t2": t2, "as_datetime": draw(gen.uint(0, 3)) == 0,
+        "tc1": draw(tcs), "tc2": draw(tcs), "t1": t1, "t2": t2, "as_datetime": draw(st.sampled_from([0, 0, 0, 1, 2])), "hc": draw(gen.hexcase),
         "ctx_alt1": draw(gen.ubits(12)), "ctx_alt2": draw(gen.ubits(12)),
         "ctx_misc": draw(gen.ubits(8)), "ctx_icao": draw(gen.addresses), "df": draw(st.sampled_from([17, 17, 18])),
     }
@@ -42,8 +42,8 @@ def build(case):
     m = case["ctx_misc"]
     me1 = cpr.me_airborne(case["tc1"], i1, e1["yz"], e1["xz"], case["ctx_alt1"], m & 3, (m >> 2) & 1, (m >> 3) & 1)
     me2 = cpr.me_airborne(case["tc2"], i2, e2["yz"], e2["xz"], case["ctx_alt2"], (m >> 4) & 3, (m >> 6) & 1, (m >> 7) & 1)
-    f1 = frames.tohex(frames.df17(case["ctx_icao"], me1, ca=m & 7, df=case["df"]), 112)
-    f2 = frames.tohex(frames.df17(case["ctx_icao"], me2, ca=m & 7, df=case["df"]), 112)
+    f1 = frames.tohex(frames.df17(case["ctx_icao"], me1, ca=m & 7, df=case["df"]), 112, case.get("hc", "U"))
+    f2 = frames.tohex(frames.df17(case["ctx_icao"], me2, ca=m & 7, df=case["df"]), 112, case.get("hc", "U"))
     return (f1, e1, i1), (f2, e2, i2)
 
 
@@ -55,11 +55,11 @@ def within(res, enc):
 
 def chk_pair(case, note):
     (f1, e1, i1), (f2, e2, i2) = build(case)
-    t1, t2 = case["t1"], case["t2"]
+    t1, t2 = cg.time_key(case["t1"], case.get("as_datetime", 0)), cg.time_key(case["t2"], case.get("as_datetime", 0))
     lat_nt = any(cpr.near_transition(x, 0.02) or abs(x) > 86.5 for x in (e1["rlat"], e2["rlat"]))
     displaced = (case["lat1"], case["lon1"]) != (case["lat2"], case["lon2"])
     dtm = case.get("as_datetime", False)
-    T1, T2 = cg.as_time(t1, dtm), cg.as_time(t2, dtm)
+    T1, T2 = cg.as_time(case["t1"], dtm), cg.as_time(case["t2"], dtm)
     for order in ("12", "21"):
         a, b = ((f1, T1, i1), (f2, T2, i2)) if order == "12" else ((f2, T2, i2), (f1, T1, i1))
         for fname, fn in (("position", pms.adsb.position), ("airborne_position", pms.adsb.airborne_position)):
